@@ -25,20 +25,20 @@ type Engine struct {
 	st      *SortTable
 	db      *SpecDB
 
-	loops       map[*ssa.Function]map[*ssa.BasicBlock]*loopInfo
-	dbgRefs     map[*ssa.Function]map[string][]*ssa.DebugRef
-	globalIDs   map[*ssa.Global]int
-	strLits     map[string]string
-	strOrder    []string
-	typeTags    map[string]int
-	tagTypes    []types.Type
-	measures    map[string][]*measure
-	keyPrefixes map[string]int
-	specErrors  []string
-	siteOrds    map[*ssa.Function]map[ssa.Instruction]string
+	loops        map[*ssa.Function]map[*ssa.BasicBlock]*loopInfo
+	dbgRefs      map[*ssa.Function]map[string][]*ssa.DebugRef
+	globalIDs    map[*ssa.Global]int
+	strLits      map[string]string
+	strOrder     []string
+	typeTags     map[string]int
+	tagTypes     []types.Type
+	measures     map[string][]*measure
+	keyPrefixes  map[string]int
+	specErrors   []string
+	siteOrds     map[*ssa.Function]map[ssa.Instruction]string
 	constGlobals map[*ssa.Global]*ssa.Const
-	loadSecs    float64
-	pruneDir    string
+	loadSecs     float64
+	pruneDir     string
 }
 
 func (e *Engine) bigIntType() types.Type {
@@ -267,6 +267,9 @@ func (e *Engine) Verify(fn *ssa.Function, ct *Contract, props []string, opt Opti
 	if ct != nil {
 		env := vc.envFor(st, f)
 		env.old = st
+		if len(fn.FreeVars) > 0 {
+			env.frame = f // captured variables are resolved through the frame
+		}
 		for _, l := range ct.Lets {
 			v, err := env.EvalAny(l.E)
 			if err != nil {
@@ -346,7 +349,7 @@ func Discharge(obls []*Obligation, opt Options) {
 			for o := range ch {
 				if o.MustFail {
 					// vacuity cover: only "unsat" matters (it would mean a contradictory path); a short single run
-					file := filepath.Join(opt.WorkDir, sanitize(fmt.Sprintf("%s_p%d", o.Name, o.Path))+".smt2")
+					file := filepath.Join(opt.WorkDir, sanitize(o.fileBase())+".smt2")
 					os.WriteFile(file, []byte(o.Script), 0o644)
 					ans, out, secs := runSolver(solvers[0], file, 2, opt.Seed)
 					o.Result = SolveResult{Answer: ans, Solver: "z3-new", Seconds: secs, Output: out}
@@ -355,7 +358,7 @@ func Discharge(obls []*Obligation, opt Options) {
 					}
 					continue
 				}
-				o.Result = solve(opt.WorkDir, fmt.Sprintf("%s_p%d", o.Name, o.Path), o.Script, opt.Timeout, opt.Seed, opt.Tier == "thorough" && !o.MustFail)
+				o.Result = solve(opt.WorkDir, o.fileBase(), o.Script, opt.Timeout, opt.Seed, opt.Tier == "thorough" && !o.MustFail)
 				if !o.MustFail && (o.Result.Answer == "timeout" || o.Result.Answer == "unknown") {
 					// no model: look for a candidate input with the quantified assumptions dropped.
 					// The candidate may be spurious; only a replay on the real code can confirm it.
@@ -369,6 +372,11 @@ func Discharge(obls []*Obligation, opt Options) {
 	}
 	// stable order
 	sort.SliceStable(obls, func(i, j int) bool { return obls[i].Name < obls[j].Name })
+	// several obligations may share name and path (two unlabelled clauses of one contract, one site reached
+	// twice on a path): every query gets its own file
+	for i, o := range obls {
+		o.Seq = i
+	}
 	// phase 1: groups (all postconditions of one return path) as one conjunction
 	groups := map[string][]*Obligation{}
 	var gkeys []string
@@ -454,7 +462,7 @@ func candidateModel(workdir string, o *Obligation, seed int) map[string]string {
 		b.WriteString(ln)
 		b.WriteByte('\n')
 	}
-	file := filepath.Join(workdir, sanitize(fmt.Sprintf("%s_p%d", o.Name, o.Path))+".cand.smt2")
+	file := filepath.Join(workdir, sanitize(o.fileBase())+".cand.smt2")
 	os.WriteFile(file, []byte(b.String()), 0o644)
 	ans, out, _ := runSolver(solvers[0], file, 5, seed)
 	if ans != "sat" {
